@@ -37,6 +37,8 @@ RULE = ('Each case = one generated dataset directory (configuration vector over 
         'DatasetSpec (the harness wrote the bytes) and the directory is content-hashed before/after. '
         'Configurations: an all-pairs covering set (every pair of axis values forced once, rest random) '
         'plus seeded random vectors, plus rejection cases (one inversion in the spike times at the '
+        'first / a middle / the last position); a third of the directories are loaded twice (second view and '
+        'second snapshot judged too). (rejection positions: '
         'first / a middle / the last position). non-trivial = distinct configuration vectors with >= 2 '
         'optional files absent, or ALF names, or (n,1) vectors.' % (len(AXES), ', '.join(sorted(AXES))))
 EXHAUSTIVE = {'quick': False, 'thorough': False}
@@ -178,6 +180,24 @@ def run_case(case, ctx):
             _compare(m, spec, o, case, ctx, feats)
         finally:
             call(m.close)
+        if case['seed'][2] % 3 == 0:
+            # history: the same directory loaded a second time (it now also holds the cluster copy and the
+            # inverse whitening matrix written by the first load) must show the same view and write nothing
+            ctx.cell('loaded_twice')
+            r2 = call(load_model, params)
+            after2 = snapshot(d)
+            if not r2.ok:
+                ctx.violation('load_raised', case, 'second load_model of the same directory raised %r' % r2.exc,
+                              dict(feats, exc=r2.exc_name, second_load=True), tb=r2.tb)
+                return
+            try:
+                _compare(r2.value, spec, o, case, ctx, dict(feats, second_load=True))
+            finally:
+                call(r2.value.close)
+            if after2 != after:
+                c2, d2, ch2 = snapshot_diff(after, after2)
+                ctx.violation('preexisting_file_modified', case, 'second load changed the directory: created %s deleted %s '
+                              'changed %s' % (c2, d2, ch2), dict(feats, second_load=True))
         # ---- file-system effects -------------------------------------------------------------
         created, deleted, changed = snapshot_diff(before, after)
         allowed = set()
